@@ -37,7 +37,7 @@ def effect_consts(facts):
     """name -> value for the public Effects constants, in declaration order."""
     out = []
     for it in facts.items(CR):
-        if it["dk"] == "AssocConst" and it["path"].startswith(EFF + "::") and it.get("ty") == EFF:
+        if it["dk"] == "AssocConst" and it["path"].startswith(EFF + "::") and it.get("ty") == EFF and (it.get("vis", "Public") == "Public" or it["path"].endswith("::PLAIN")):
             out.append((it["path"].split("::")[-1], it.get("value"), it))
     return out
 
